@@ -68,6 +68,11 @@ type ReturnPoint struct {
 }
 
 type Exec struct {
+	puApps []puApp
+	recDefined map[string]bool
+	quantDepth int
+	ghostVals map[string]SVal
+	specNilDeref int
 	w        *World
 	pk       *Pkg
 	fn       *ssa.Function
@@ -130,8 +135,53 @@ func (x *Exec) assume(t *Term) {
 	if t.IsTrue() {
 		return
 	}
+	if x.quantDepth > 0 {
+		// a side fact stated while evaluating the body of a quantifier holds for every value of the bound
+		// variables it mentions
+		if fb := freeBound(t); len(fb) > 0 {
+			t = x.o.Forall(fb, t)
+		}
+	}
 	x.assumes = append(x.assumes, t)
 	x.assumeDefs = append(x.assumeDefs, x.curDefs)
+}
+
+// assumeClosed: assume t for every value of the bound variables that occur free in it (a fact relating a term built
+// under a quantifier to one built outside).
+func (x *Exec) assumeClosed(t *Term) {
+	if fb := freeBound(t); len(fb) > 0 {
+		t = x.o.Forall(fb, t)
+	}
+	x.assume(t)
+}
+
+func freeBound(t *Term) []*Term {
+	seen := map[*Term]bool{}
+	var out []*Term
+	inner := map[*Term]bool{}
+	var walk func(t *Term)
+	walk = func(t *Term) {
+		if seen[t] {
+			return
+		}
+		seen[t] = true
+		if t.Op == "bvar" {
+			if !inner[t] {
+				out = append(out, t)
+			}
+			return
+		}
+		if t.Op == "forall" || t.Op == "exists" {
+			for _, b := range t.Bound {
+				inner[b] = true
+			}
+		}
+		for _, a := range t.Args {
+			walk(a)
+		}
+	}
+	walk(t)
+	return out
 }
 
 // defining: hypotheses assumed inside fn only constrain the symbols introduced after mark (results of a call,
@@ -643,11 +693,20 @@ func (x *Exec) cutLoopAtHeader(fn *ssa.Function, l *Loop, spec *LoopSpec, st *St
 			havockedSlices = append(havockedSlices, ns)
 			continue
 		}
+		if dv, isDec := x.cell(st, obj).(DecVal); isDec {
+			tag := fmt.Sprintf("loop%d.dec%d", l.Ordinal, obj.ID)
+			nd := DecVal{View: dv.View, Pos: o.Fresh(tag+".pos", IntSort), Depth: o.Fresh(tag+".depth", IntSort),
+				InObj: o.Fresh(tag+".inobj", BoolSort), AtKey: o.Fresh(tag+".atkey", BoolSort)}
+			x.assume(o.And(o.Le(dv.Pos, nd.Pos), o.Le(nd.Pos, x.nTok(dv.View)), o.Le(o.Int(0), nd.Depth)))
+			st.Cells[obj] = nd
+			continue
+		}
 		st.Cells[obj] = x.freshVal(fmt.Sprintf("loop%d.obj%d", l.Ordinal, obj.ID), obj.T)
 	}
 	if mods.heap {
 		st.H = o.Fresh(fmt.Sprintf("H.loop%d", l.Ordinal), o.HeapSort())
 		na := o.Fresh(fmt.Sprintf("alloc.loop%d", l.Ordinal), IntSort)
+		o.allocVars[na] = true
 		x.assume(o.Ge(na, o.Add(st.Alloc, o.Int(1<<20))))
 		st.Alloc = na
 		for _, hs := range havockedSlices {
@@ -711,6 +770,11 @@ func (x *Exec) loopMods(l *Loop, st *State) modSet {
 		if pv, ok := st.Regs[v].(PtrVal); ok && pv.Obj != nil {
 			return pv.Obj, false
 		}
+		if pv, ok := st.Regs[v].(PtrVal); ok && len(pv.Alts) > 0 {
+			for _, ob := range pv.objs() {
+				m.objs[ob] = true
+			}
+		}
 		return nil, false
 	}
 	for b := range l.Blocks {
@@ -736,6 +800,21 @@ func (x *Exec) loopMods(l *Loop, st *State) modSet {
 				}
 			case ssa.CallInstruction:
 				c := t.Common()
+				if x.callTouchesDecoder(c) {
+					for o2, cv := range st.Cells {
+						if _, isDec := cv.(DecVal); isDec {
+							m.objs[o2] = true
+						}
+					}
+					for _, o2 := range x.symDecs {
+						m.objs[o2] = true
+					}
+				}
+				if c.IsInvoke() {
+					if _, ok := invokeSchemas[invokeKey(c)]; ok {
+						continue // modelled interface method: ghost decoder state only
+					}
+				}
 				if !x.callMayWriteHeap(c) {
 					continue
 				}
@@ -745,6 +824,9 @@ func (x *Exec) loopMods(l *Loop, st *State) modSet {
 					if pp := fnPkg(sc); pp == nil || x.w.ByPath[pp.Pkg.Path()] == nil {
 						// external function: only the sync.Mutex schemas change ghost state
 						touchesGhost = strings.Contains(sc.String(), "sync.Mutex")
+					} else if fc := x.w.ByPath[pp.Pkg.Path()].Contracts.Funcs[ContractKey(sc)]; fc != nil && !fc.Inline {
+						// a function under contract is itself obliged to leave every lock as it found it
+						touchesGhost = false
 					}
 				} else if _, isBuiltin := c.Value.(*ssa.Builtin); isBuiltin {
 					touchesGhost = false
@@ -755,8 +837,10 @@ func (x *Exec) loopMods(l *Loop, st *State) modSet {
 					}
 				}
 				for _, a := range c.Args {
-					if pv, ok := st.Regs[a].(PtrVal); ok && pv.Obj != nil {
-						m.objs[pv.Obj] = true
+					if pv, ok := st.Regs[a].(PtrVal); ok {
+						for _, ob := range pv.objs() {
+							m.objs[ob] = true
+						}
 					}
 				}
 				if c.IsInvoke() {
@@ -768,6 +852,37 @@ func (x *Exec) loopMods(l *Loop, st *State) modSet {
 		}
 	}
 	return m
+}
+
+// callTouchesDecoder: the call may advance a json decoder's ghost cursor (a modelled decoder method, or a module
+// function whose contract assigns decoder(..)).
+func (x *Exec) callTouchesDecoder(c *ssa.CallCommon) bool {
+	if c.IsInvoke() {
+		_, ok := invokeSchemas[invokeKey(c)]
+		return ok
+	}
+	sc := c.StaticCallee()
+	if sc == nil {
+		return false
+	}
+	if strings.Contains(sc.String(), "encoding/json.Decoder") {
+		return true
+	}
+	if pp := fnPkg(sc); pp != nil {
+		if pk, ok := x.w.ByPath[pp.Pkg.Path()]; ok {
+			if fc := pk.Contracts.Funcs[ContractKey(sc)]; fc != nil {
+				if fc.Inline {
+					return true
+				}
+				for _, a := range fc.Assigns {
+					if strings.HasPrefix(strings.TrimSpace(a), "decoder(") {
+						return true
+					}
+				}
+			}
+		}
+	}
+	return false
 }
 
 func (x *Exec) evalClause(env *SpecEnv, c *Clause) (res *Term) {
